@@ -28,28 +28,38 @@ theorem cell_ck_of_p (σ : St) (t : Tier) (y : Cell) (n : Nat) (l : Option Nat) 
 @[simp] theorem lock_unlock (σ : St) : (unlock σ).lock = none := rfl
 @[simp] theorem nver_unlock (σ : St) : (unlock σ).nver = σ.nver := rfl
 
-/-- A schedule entry either changes nothing but the clock, or lets an enabled thread take one step. -/
-theorem stepCfg_cases (V : Variant) (R : Route) (cfg : Cfg) (e : Entry) :
+@[simp] theorem view_zero (σ : St) : view 0 σ = σ := rfl
+
+theorem evictCell_zero (t : Tier) (σ : St) :
+    evictCell 0 t σ = σ.setCell t ⟨none, 0, (σ.cell t).ver⟩ := rfl
+
+/-- Every call is issued on node 0 (one facade instance). -/
+def Nodes0 (cfg : Cfg) : Prop := ∀ t ∈ cfg.threads, t.node = 0
+
+/-- Single-node form of `stepCfg_cases` for a thread step. -/
+theorem stepCfg_cases0 (V : Variant) (R : Route) (cfg : Cfg) (e : Entry) (hn : Nodes0 cfg) :
     stepCfg V R cfg e = { cfg with now := cfg.now + 1 } ∨
+    (∃ t, e.evict = some t ∧
+      stepCfg V R cfg e = { cfg with st := evictCell e.tid t cfg.st, now := cfg.now + 1 }) ∨
     ∃ th, cfg.threads[e.tid]? = some th ∧ enabled V.lk cfg.st e.tid th = true ∧
       stepCfg V R cfg e =
         { st := (stepThread V.lk R e.tid e.fault cfg.st
                   { th with inv := some (th.inv.getD cfg.now), ret := some cfg.now }).st
           threads := (cfg.threads.set e.tid (stepThread V.lk R e.tid e.fault cfg.st
                   { th with inv := some (th.inv.getD cfg.now), ret := some cfg.now }).th) ++
-                  (stepThread V.lk R e.tid e.fault cfg.st
-                  { th with inv := some (th.inv.getD cfg.now), ret := some cfg.now }).spawn.toList
+                  ((stepThread V.lk R e.tid e.fault cfg.st
+                  { th with inv := some (th.inv.getD cfg.now), ret := some cfg.now }).spawn.map
+                    (fun t => { t with node := th.node })).toList
           now := cfg.now + 1
           trace := (stepThread V.lk R e.tid e.fault cfg.st
                   { th with inv := some (th.inv.getD cfg.now), ret := some cfg.now }).evs.reverse ++ cfg.trace } := by
-  unfold stepCfg
-  cases hth : cfg.threads[e.tid]? with
-  | none => exact Or.inl rfl
-  | some th =>
-    simp only
-    split
-    · exact Or.inr ⟨th, rfl, by assumption, rfl⟩
-    · exact Or.inl rfl
+  rcases stepCfg_cases V R cfg e with h | h | ⟨th, _, hth, hen, heq⟩
+  · exact Or.inl h
+  · exact Or.inr (Or.inl h)
+  · have h0 : th.node = 0 := hn th (List.mem_of_getElem? hth)
+    have hv : ∀ σ : St, view th.node σ = σ := by intro σ; rw [h0]; rfl
+    simp only [hv] at hen heq
+    exact Or.inr (Or.inr ⟨th, hth, hen, heq⟩)
 
 theorem lt_of_getElem? {α} {l : List α} {i : Nat} {a : α} (h : l[i]? = some a) : i < l.length := by
   rcases Nat.lt_or_ge i l.length with h1 | h1
@@ -78,7 +88,7 @@ set_option maxHeartbeats 1000000 in
 /-- The repaired code starts no goroutine. -/
 theorem stepThread_spawn_repaired (R : Route) (tid : Nat) (ft : Option Tier) (σ : St) (th : Thread) :
     (stepThread true R tid ft σ th).spawn = none := by
-  obtain ⟨op, pc, inv, ret, res, cver, rver⟩ := th
+  obtain ⟨op, pc, inv, ret, res, cver, rver, node⟩ := th
   cases op <;> cases pc <;>
     first
     | exact writeStep_spawn ..
@@ -113,7 +123,7 @@ set_option maxHeartbeats 1000000 in
 /-- A step never changes which call a thread performs. -/
 theorem stepThread_op (lk : Bool) (R : Route) (tid : Nat) (ft : Option Tier) (σ : St) (th : Thread) :
     (stepThread lk R tid ft σ th).th.op = th.op := by
-  obtain ⟨op, pc, inv, ret, res, cver, rver⟩ := th
+  obtain ⟨op, pc, inv, ret, res, cver, rver, node⟩ := th
   cases op <;> cases pc <;>
     first
     | exact writeStep_op ..
@@ -124,12 +134,13 @@ theorem stepThread_op (lk : Bool) (R : Route) (tid : Nat) (ft : Option Tier) (σ
 
 theorem stepCfg_ops_repaired (R : Route) (cfg : Cfg) (e : Entry) :
     (stepCfg .repaired R cfg e).threads.map (·.op) = cfg.threads.map (·.op) := by
-  rcases stepCfg_cases .repaired R cfg e with heq | ⟨th, hth, _, heq⟩
+  rcases stepCfg_cases .repaired R cfg e with heq | ⟨t, _, heq⟩ | ⟨th, _, hth, _, heq⟩
+  · rw [heq]
   · rw [heq]
   · rw [heq]
     simp only [Variant.lk]
     rw [stepThread_spawn_repaired]
-    simp only [Option.toList, List.append_nil]
+    simp only [Option.map_none, Option.toList, List.append_nil]
     apply List.ext_getElem?
     intro j
     simp only [List.getElem?_map, List.getElem?_set]
@@ -148,5 +159,73 @@ theorem run_ops_repaired (R : Route) (sch : List Entry) (cfg : Cfg) :
   | cons e rest ih =>
     show (run .repaired R (stepCfg .repaired R cfg e) rest).threads.map (·.op) = _
     rw [ih, stepCfg_ops_repaired]
+
+
+theorem writeStep_node (R : Route) (tid : Nat) (ft : Option Tier) (σ : St) (th : Thread) (v : Val) (ttl : Nat) :
+    (writeStep R tid ft σ th v ttl).th.node = th.node := by
+  unfold writeStep; split <;> split <;> rfl
+
+theorem listCont_node (R : Route) (op : Op) (σ : St) (th : Thread) (cur : Option Val) :
+    (listCont op σ th R cur).2.node = th.node := by
+  unfold listCont
+  cases cur with
+  | none => cases op <;> simp [finish]
+  | some v =>
+    simp only
+    cases decodeList v <;> simp [finish]
+
+set_option maxHeartbeats 1000000 in
+/-- A step never moves a call to another node. -/
+theorem stepThread_node (lk : Bool) (R : Route) (tid : Nat) (ft : Option Tier) (σ : St) (th : Thread) :
+    (stepThread lk R tid ft σ th).th.node = th.node := by
+  obtain ⟨op, pc, inv, ret, res, cver, rver, node⟩ := th
+  cases op <;> cases pc <;>
+    first
+    | exact writeStep_node ..
+    | rfl
+    | (simp only [stepThread]
+       repeat' split
+       all_goals first | exact writeStep_node .. | exact listCont_node .. | rfl | simp_all [finish])
+
+theorem nodes0_stepCfg (R : Route) (cfg : Cfg) (e : Entry) (hn : Nodes0 cfg) :
+    Nodes0 (stepCfg .repaired R cfg e) := by
+  rcases stepCfg_cases .repaired R cfg e with heq | ⟨t, _, heq⟩ | ⟨th, _, hth, _, heq⟩
+  · rw [heq]; exact hn
+  · rw [heq]; exact hn
+  · rw [heq]
+    simp only [Variant.lk]
+    rw [stepThread_spawn_repaired]
+    simp only [Option.map_none, Option.toList, List.append_nil]
+    intro t ht
+    rcases List.mem_or_eq_of_mem_set ht with ht | ht
+    · exact hn t ht
+    · subst ht
+      rw [stepThread_node]
+      exact hn th (List.mem_of_getElem? hth)
+
+theorem mkThreads_nil (ops : List Op) : mkThreads ops [] = ops.map (fun o => { op := o }) := by
+  induction ops with
+  | nil => rfl
+  | cons o os ih => simp [mkThreads, ih]
+
+theorem modelN_nil (V : Variant) (R : Route) (c s p : Option Val) (ops : List Op) (sch : List Entry) :
+    modelN V R c s p ops [] sch = model V R c s p ops sch := by
+  unfold modelN model initCfgN initCfg
+  rw [mkThreads_nil]
+
+theorem nodes0_init (c s p : Option Val) (ops : List Op) : Nodes0 (initCfg c s p ops) := by
+  intro t ht
+  simp only [initCfg, List.mem_map] at ht
+  obtain ⟨o, _, rfl⟩ := ht
+  rfl
+
+
+theorem cell_setCell_ne (σ : St) (t t' : Tier) (x : Cell) (h : t ≠ t') : (σ.setCell t x).cell t' = σ.cell t' := by
+  cases t <;> cases t' <;> first | rfl | exact absurd rfl h
+
+/-- Evictions are environment steps on a cache tier of node 0, and only where a persistent tier backs the
+cache (elsewhere the "cache" holds the only copy and expiry is a deletion by TTL). -/
+def EvictOK (R : Route) (e : Entry) : Prop :=
+  ∀ t, e.evict = some t → e.tid = 0 ∧ t ≠ .persistent ∧ R.pe = true
 
 end Tunnox.C14
